@@ -1,5 +1,7 @@
 import ObiVerif.Model.Writer
 import ObiVerif.Lemmas.Reseq
+import ObiVerif.Lemmas.WriterFile
+import ObiVerif.Lemmas.CsvRoundTrip
 /-!
 # C04 — writers emit every batch once, in order, as well-formed output (property theorems)
 
@@ -142,5 +144,177 @@ example : writeJson ([1, 0, 2].map fun k => (k, if k = 2 then [] else [65 + k.to
     = openJson ++ [65] ++ sepJson ++ [66] ++ closeJson := by
   rw [json_writer_perm _ 3 [1, 0, 2] (by decide)]
   decide
+
+/-! ## the formatters inside the model: well-formedness of the whole file
+
+From here on the chunk texts are no longer data: they are produced by the model of the per-batch formatters
+(`ObiVerif.WriterFmt`, compared byte for byte with `FormatFastaBatch` / `FormatFastqBatch` / `FormatJSONBatch` /
+`FormatCVSBatch` by the harness).  `recs k` is the list of records of batch number `k`; every statement holds
+for every `n`, every arrival order `ks` of the batch numbers and any set of empty batches (`recs k = []`). -/
+
+open ObiVerif.WriterFmt ObiVerif.WriterFile
+
+/-- **FASTA file.** Whatever the arrival order and the empty batches, the file written for batches of
+well-formed records is read back by the chunk parser of `/repo` (the 7-state machine, model of C02) followed by
+`ParseFastSeqJsonHeader` as exactly the records of all batches in batch order (FASTA carries no qualities). -/
+theorem fasta_file_reads_back {α : Type} [DecidableEq α] (J : Header.JsonLib α) (se : Bool)
+    (recs : Nat → List (Header.Record α))
+    (hJ : ∀ k, ∀ x ∈ recs k, J.OKat (x.ann, x.defn)) (hWF : ∀ k, ∀ x ∈ recs k, Header.WF x)
+    (n : Nat) (ks : List Nat) (hp : ks.Perm (List.range n)) (hne : ((List.range n).map recs).flatten ≠ []) :
+    ∃ out, writeFile { kind := Kind.fasta, skipEmpty := se } (ks.map fun k => (k, (recs k).map (recOf J))) = some out ∧
+      Header.readFasta J out
+        = some ((((List.range n).map recs).flatten).map (fun x => { x with qual := none })) := by
+  refine ⟨_, writeFile_raw _ (by intro h; cases h) (fun k => (recs k).map (recOf J))
+    (fun k => ((recs k).map (Header.writeFasta J)).flatten) ?_ n ks hp, ?_⟩
+  · intro k
+    simpa [fmtBatch] using fmtFastaBatch_eq J se (recs k) (fun x hx => (hWF k x hx).seq_ne)
+  · have e : ((List.range n).map fun k => ((recs k).map (Header.writeFasta J)).flatten).flatten
+        = ((((List.range n).map recs).flatten).map (Header.writeFasta J)).flatten := by
+      rw [← flatten_map_flatten, List.map_map]; rfl
+    rw [e]
+    have hmem : ∀ x ∈ ((List.range n).map recs).flatten, J.OKat (x.ann, x.defn) ∧ Header.WF x := by
+      intro x hx
+      obtain ⟨l, hl, hxl⟩ := List.mem_flatten.mp hx
+      obtain ⟨k, _, rfl⟩ := List.mem_map.mp hl
+      exact ⟨hJ k x hxl, hWF k x hxl⟩
+    cases hall : ((List.range n).map recs).flatten with
+    | nil => exact absurd hall hne
+    | cons r rs =>
+      rw [hall] at hmem
+      exact Header.write_read_fasta_many_aux J r rs (fun x hx => (hmem x hx).1) (fun x hx => (hmem x hx).2)
+
+/-- **FASTQ file.** Whatever the arrival order, the file is the four-line records (`_formatFastq`, model of C02)
+of all batches in batch order, nothing before, between or after them.  (Each such record is read back by the
+12-state chunk parser: `Props.C02.write_read_fastq`; the statement that the parser reads a *sequence* of them back
+is not proved here — it is tied by the correspondence check of C02 and the decode-back oracle of the harness.) -/
+theorem fastq_file_is_records_in_order {α : Type} [DecidableEq α] (J : Header.JsonLib α) (sh : UInt8) (se : Bool)
+    (recs : Nat → List (Header.Record α)) (hseq : ∀ k, ∀ x ∈ recs k, x.seq ≠ [])
+    (n : Nat) (ks : List Nat) (hp : ks.Perm (List.range n)) :
+    writeFile { kind := Kind.fastq, shift := sh, skipEmpty := se } (ks.map fun k => (k, (recs k).map (recOf J)))
+      = some ((((List.range n).map recs).flatten).map (Header.writeFastq J sh)).flatten := by
+  rw [writeFile_raw _ (by intro h; cases h) (fun k => (recs k).map (recOf J))
+    (fun k => ((recs k).map (Header.writeFastq J sh)).flatten)
+    (fun k => by simpa [fmtBatch] using fmtFastqBatch_eq J sh se (recs k) (hseq k)) n ks hp]
+  rw [← flatten_map_flatten, List.map_map]; rfl
+
+/-- **CSV file.** For a stream of at least one batch, whatever the arrival order and whichever batches are empty
+(also batch 0, also all of them), the file is the header line — exactly once, first — followed by one row per record
+in batch order; and `encoding/csv`'s reader (model `CsvRead.parse`, compared with the real `csv.Reader` on every
+output) reads it back as the header and the rows with every field unchanged up to the reader's own `\r\n` → `\n`,
+for ARBITRARY field bytes (quotes, commas, CR, LF, leading blanks).  `hvis`: no row is the single empty field (such a
+row is an empty line for every CSV reader). -/
+theorem csv_file_reads_back (sh : UInt8) (o : CsvOpt) (recs : Nat → List Rec) (rows : Nat → List (List B))
+    (hrows : ∀ k, (recs k).mapM (csvRecord sh o) = some (rows k))
+    (hhdr : CsvRT.RowOK (csvHeader o)) (hvis : ∀ k, ∀ row ∈ rows k, row ≠ [[]])
+    (n : Nat) (hn : 0 < n) (ks : List Nat) (hp : ks.Perm (List.range n)) :
+    ∃ out, writeFile { kind := Kind.csv, shift := sh, csv := o } (ks.map fun k => (k, recs k)) = some out ∧
+      out = csvRow (csvHeader o) ++ ((((List.range n).map rows).flatten).map csvRow).flatten ∧
+      CsvRead.parse out
+        = some ((csvHeader o :: ((List.range n).map rows).flatten).map (fun r => r.map CsvRT.collapse)) := by
+  obtain ⟨m, rfl⟩ : ∃ m, n = m + 1 := ⟨n - 1, by omega⟩
+  let txt : Nat → B := fun k => (if k = 0 then csvRow (csvHeader o) else []) ++ ((rows k).map csvRow).flatten
+  have hfile := writeFile_raw { kind := Kind.csv, shift := sh, csv := o } (by intro h; cases h) recs txt
+    (fun k => by simpa [fmtBatch] using fmtCsvBatch_rows sh o k (recs k) (rows k) (hrows k)) (m + 1) ks hp
+  have hout : ((List.range (m + 1)).map txt).flatten
+      = csvRow (csvHeader o) ++ ((((List.range (m + 1)).map rows).flatten).map csvRow).flatten := by
+    have e2 : ((((List.range (m + 1)).map rows).flatten).map csvRow).flatten
+        = ((List.range (m + 1)).map fun k => ((rows k).map csvRow).flatten).flatten := by
+      rw [← flatten_map_flatten, List.map_map]; rfl
+    rw [e2, List.range_succ_eq_map]
+    simp [txt, List.map_map, Function.comp_def]
+  refine ⟨_, hfile, hout, ?_⟩
+  rw [hout]
+  have hlenAll : ∀ r ∈ ((List.range (m + 1)).map rows).flatten, r.length = (csvHeader o).length := by
+    intro r hr
+    obtain ⟨l, hl, hrl⟩ := List.mem_flatten.mp hr
+    obtain ⟨k, _, rfl⟩ := List.mem_map.mp hl
+    exact mapM_csvRecord_length sh o (recs k) (rows k) (hrows k) r hrl
+  have hvisAll : ∀ r ∈ ((List.range (m + 1)).map rows).flatten, r ≠ [[]] := by
+    intro r hr
+    obtain ⟨l, hl, hrl⟩ := List.mem_flatten.mp hr
+    obtain ⟨k, _, rfl⟩ := List.mem_map.mp hl
+    exact hvis k r hrl
+  have := CsvRT.parse_csvRows (csvHeader o :: ((List.range (m + 1)).map rows).flatten)
+    (by
+      intro r hr
+      rcases List.mem_cons.mp hr with rfl | hr
+      · exact hhdr
+      · refine ⟨?_, hvisAll r hr⟩
+        intro e
+        have := hlenAll r hr
+        rw [e] at this
+        exact hhdr.1 (List.length_eq_zero_iff.mp this.symm))
+    (by
+      intro r hr r' hr'
+      have h1 : r.length = (csvHeader o).length := by
+        rcases List.mem_cons.mp hr with rfl | hr
+        · rfl
+        · exact hlenAll r hr
+      have h2 : r'.length = (csvHeader o).length := by
+        rcases List.mem_cons.mp hr' with rfl | hr'
+        · rfl
+        · exact hlenAll r' hr'
+      omega)
+  simpa using this
+
+/-- the element of the JSON array written for one record: `"  "` + `JSONRecord` -/
+def jsonElem (sh : UInt8) (r : Rec) : Bytes := [32, 32] ++ jsonRecord sh r
+
+theorem jsonBatch_join (sh : UInt8) (r : Rec) (rs : List Rec) :
+    [32, 32] ++ jsonRecord sh r ++ jsonTail sh rs = joinAll sepJson ((r :: rs).map (jsonElem sh)) := by
+  induction rs generalizing r with
+  | nil => simp [jsonTail, joinAll, jsonElem]
+  | cons r' rs ih =>
+    have := ih r'
+    simp only [List.map_cons, joinAll, jsonTail, jsonElem, sepJson] at this ⊢
+    rw [← this]
+    simp
+
+theorem fmtJsonBatch_join (sh : UInt8) (rs : List Rec) :
+    fmtJsonBatch sh rs = joinAll sepJson (rs.map (jsonElem sh)) := by
+  cases rs with
+  | nil => rfl
+  | cons r rs => exact jsonBatch_join sh r rs
+
+/-- **JSON file.** Whatever the arrival order and the empty batches, the file is `[\n`, the texts of the records of
+all batches in batch order (`"  "` + `JSONRecord`) separated by `,\n`, `\n]\n`: one array with one element per
+record, in order — now for the texts the formatter model produces, not for assumed chunk shapes. -/
+theorem json_file_is_array_of_record_texts (sh : UInt8) (recs : Nat → List Rec)
+    (n : Nat) (ks : List Nat) (hp : ks.Perm (List.range n)) :
+    writeFile { kind := Kind.json, shift := sh } (ks.map fun k => (k, recs k))
+      = some (openJson ++ joinAll sepJson ((((List.range n).map recs).flatten).map (jsonElem sh)) ++ closeJson) := by
+  rw [writeFile_json _ rfl recs n ks]
+  have e : (fun k => (k, fmtJsonBatch sh (recs k))) = (fun k => (k, joinAll sepJson ((fun k => (recs k).map (jsonElem sh)) k))) := by
+    funext k; rw [fmtJsonBatch_join]
+  show some (writeJson (ks.map fun k => (k, fmtJsonBatch sh (recs k)))) = _
+  rw [e, json_is_array_of_records (fun k => (recs k).map (jsonElem sh)) ?_ n ks hp]
+  · congr 3
+    rw [List.map_flatten, List.map_map]; rfl
+  · intro k t ht
+    obtain ⟨r, _, rfl⟩ := List.mem_map.mp ht
+    simp [jsonElem]
+
+/-- **Empty input.** No batch at all, or only empty batches in any order: the JSON file is the empty array
+`[\n\n]\n` -/
+theorem json_empty_input (sh : UInt8) (recs : Nat → List Rec) (hempty : ∀ k, recs k = [])
+    (n : Nat) (ks : List Nat) (hp : ks.Perm (List.range n)) :
+    writeFile { kind := Kind.json, shift := sh } (ks.map fun k => (k, recs k)) = some [91, 10, 10, 93, 10] := by
+  rw [json_file_is_array_of_record_texts sh recs n ks hp]
+  have : ((List.range n).map recs).flatten = [] := by
+    simp [hempty]
+  rw [this]; rfl
+
+/-- **JSON string literals.** For every byte string (identifier, sequence, attribute key or value) the text
+between the quotes written by the encoder is a JSON string body — no raw control character, quote or backslash,
+only the escapes of RFC 8259 — that denotes exactly this byte string. -/
+theorem json_string_wellformed (s : B) : StrBody (s.flatMap escByte) s := escaped_denotes s
+
+/-- non-vacuity of the hypotheses of the CSV round trip: a header and a row whose first field holds a quote, a comma
+and CR LF (read back with the pair collapsed, as `encoding/csv` does) -/
+example : CsvRead.parse (([[[105, 100], [115]], [[97, 34, 44, 13, 10], [32]]] : List (List B)).map csvRow).flatten
+    = some [[[105, 100], [115]], [[97, 34, 44, 10], [32]]] :=
+  CsvRT.parse_csvRows [[[105, 100], [115]], [[97, 34, 44, 13, 10], [32]]]
+    (by intro r hr; simp only [List.mem_cons, List.not_mem_nil, or_false] at hr; rcases hr with rfl | rfl <;> exact ⟨by decide, by decide⟩)
+    (by intro r hr r' hr'; simp only [List.mem_cons, List.not_mem_nil, or_false] at hr hr'; rcases hr with rfl | rfl <;> rcases hr' with rfl | rfl <;> rfl)
 
 end ObiVerif.Props.C04
